@@ -6,13 +6,13 @@ import shapes
 from common import from_replay, to_replay  # noqa: F401
 
 COQ_MODULE = "Prop_C13"
-THEOREMS = ["C13_try_exact"]
+THEOREMS = ["C13_try_exact", "C13_scoped_try_exact"]
 CASE_MODULES = ["Monitors"]
 CHECK_WITHOUT_PROOF = True
 TRUSTED = common.TRUSTED_COMMON
 ASSUMPTIONS = common.ASSUME_COMMON
 RULE = ("every root template (single lock, poisonable, 4 collection kinds x 4 container kinds, sizes 0..4, random "
-        "nestings to depth 2) x {try_lock, try_read} x every assignment of {free, read-held, write-held by another "
+        "nestings to depth 2) x {try_lock, try_read, and for a third of the cases scoped_try_lock / scoped_try_read} x every assignment of {free, read-held, write-held by another "
         "thread} to the leaves; non-trivial = at least one leaf held (a refusal or a shared grant next to readers); "
         "distinct = distinct (shape, mode, assignment)")
 EXHAUSTIVE = {"quick": False, "thorough": False}
@@ -80,8 +80,18 @@ def gen(tier, rng):
                 k += 1
                 s = b.scen(hist=[(0, ("get",)), (0, ("acq", root, m, "try")), (0, ("gdrop",))],
                            pre=common.pre_from_assignment(b, locks, a),
-                           meta={"desc": b.desc[root], "mode": m, "assign": "".join(a)})
+                           meta={"desc": b.desc[root], "mode": m, "assign": "".join(a), "flavour": "try"})
                 scens.append(s)
+                if rng.random() < 0.35:
+                    # the scoped variant: scoped_try_lock / scoped_try_read
+                    b.sid = f"c13_{k}"
+                    k += 1
+                    body = [("w", 0)] if m == "ex" and locks and rng.random() < 0.5 else ([("r", 0)] if locks else [])
+                    if rng.random() < 0.2:
+                        body.append(("panic",))
+                    scens.append(b.scen(hist=[(0, ("get",)), (0, ("acq", root, m, "scopedtry", rng.random() < 0.5, body))],
+                                        pre=common.pre_from_assignment(b, locks, a),
+                                        meta={"desc": b.desc[root], "mode": m, "assign": "".join(a), "flavour": "scopedtry"}))
     return scens
 
 
@@ -93,7 +103,7 @@ def classify(s, r):
     d = s.meta
     kind = d["desc"].split(":")[0].split("[")[0]
     ok = any("(ROk)" in o for o in r["obs"][1:2])
-    return [f"root={kind}", f"mode={d['mode']}", f"n={len(d['assign'])}", "outcome=" + ("ok" if ok else "wouldblock")]
+    return [f"root={kind}", f"flavour={d.get('flavour', 'try')}", f"mode={d['mode']}", f"n={len(d['assign'])}", "outcome=" + ("ok" if ok else "wouldblock")]
 
 
 def nontrivial(s, r):
@@ -101,4 +111,4 @@ def nontrivial(s, r):
 
 
 def signature(s):
-    return (s.meta["desc"], s.meta["mode"], s.meta["assign"])
+    return (s.meta["desc"], s.meta["mode"], s.meta["assign"], s.meta.get("flavour", "try"))
